@@ -60,6 +60,14 @@ type FuncContract struct {
 	Entry      []*Expr // "entry" ghost assignments (unused yet)
 	Iterates   []*Iterates
 	Decreases  *Clause
+	GhostEntry []*GhostAssign
+	AssumeLocked []*Clause // protocol assumptions evaluated right after the first guarded Lock (listed as assumptions)
+}
+
+type GhostAssign struct {
+	LHS  *Expr
+	RHS  *Expr
+	Text string
 }
 
 type Iterates struct {
@@ -136,7 +144,7 @@ func (cs *ContractSet) forFunc(fn *ssa.Function) *FuncContract {
 
 var clauseKW = map[string]bool{"func": true, "type": true, "pure": true, "uf": true, "lemma": true, "ghost": true, "requires": true, "ensures": true,
 	"modifies": true, "decreases": true, "loop": true, "iterates": true, "concurrent": true, "props": true, "terminates": true,
-	"noinline": true, "arith": true, "nonnil": true, "guards": true, "invariant": true, "latch": true, "params": true, "results": true, "trusted": true, "purefn": true}
+	"noinline": true, "assumelocked": true, "ghostentry": true, "callback": true, "arith": true, "nonnil": true, "guards": true, "invariant": true, "latch": true, "params": true, "results": true, "trusted": true, "purefn": true}
 
 var tagRe = regexp.MustCompile(`^(\w+)\[([A-Z0-9, ]+)\]`)
 
@@ -364,6 +372,42 @@ func (cs *ContractSet) LoadContractFile(path string, pkgKey string) error {
 			if curF != nil {
 				curF.Terminates = true
 			}
+		case "assumelocked":
+			if curF == nil {
+				return fail("assumelocked outside func block")
+			}
+			e, err := ParseExpr(rest)
+			if err != nil {
+				return fail("%v", err)
+			}
+			curF.AssumeLocked = append(curF.AssumeLocked, &Clause{Kind: "assumelocked", Expr: e, Text: rest, File: path, Line: rc.line})
+		case "ghostentry":
+			// ghostentry <ghost lvalue> = <expr> : ghost assignment executed when the function body starts
+			if curF == nil {
+				return fail("ghostentry outside func block")
+			}
+			parts := strings.SplitN(rest, "=", 2)
+			if len(parts) != 2 {
+				return fail("ghostentry <lhs> = <expr>")
+			}
+			l, err := ParseExpr(parts[0])
+			if err != nil {
+				return fail("%v", err)
+			}
+			r, err := ParseExpr(parts[1])
+			if err != nil {
+				return fail("%v", err)
+			}
+			curF.GhostEntry = append(curF.GhostEntry, &GhostAssign{LHS: l, RHS: r, Text: rest})
+		case "callback":
+			// callback <field> : contract of calls through the func-typed field of the current type (receiver = self)
+			if curT == nil {
+				return fail("callback outside type block")
+			}
+			key := curT.Key + "." + strings.TrimSpace(rest) + "#callback"
+			curF = &FuncContract{Key: key, Header: "callback " + rest, RecvName: "self", File: path, Line: rc.line, Trusted: true}
+			cs.byName[key] = curF
+			cs.order = append(cs.order, key)
 		case "arith":
 			if curF != nil && strings.TrimSpace(rest) == "math" {
 				curF.ArithMath = true
